@@ -21,7 +21,7 @@ THEOREMS = [
     "Determinism.membership_only_invariant", "Determinism.sorted_after_invariant", "Determinism.sortedBy_after_invariant",
     "Determinism.singleton_only_invariant",
     "Determinism.pageUrl_invariant", "Determinism.rootSymlink_invariant", "Determinism.rootSymlink_no_indexError",
-    "Determinism.rootSymlink_link_fresh", "Determinism.hasIndexPage_invariant", "Determinism.rootUnknown_invariant", "Determinism.popSingle_invariant",
+    "Determinism.rootSymlink_link_fresh", "Determinism.rootSymlink_hidden", "Determinism.hasIndexPage_invariant", "Determinism.rootUnknown_invariant", "Determinism.popSingle_invariant",
     "Determinism.rootKinds_invariant",
     "Determinism.projectname_invariant", "Determinism.projectName_eq_old",
     "Determinism.projectname_counterexample_old", "Determinism.projectname_old_depends_on_enumeration",
@@ -40,7 +40,7 @@ THEOREMS = [
     "Determinism.unmaskedAttrs_no_indexError", "Determinism.documentOrder_in_registry_order",
     "Determinism.documentOrder_visible_only",
     "Determinism.addTemplate_swap", "Determinism.addTemplateDir_listing_invariant_partial",
-    "Determinism.addTemplateDir_listing_counterexample", "Determinism.addTemplateDirSorted_listing_invariant",
+    "Determinism.addTemplateDir_listing_counterexample_old", "Determinism.addTemplateDirSorted_listing_invariant",
     "Determinism.buildtime_function_of_inputs", "Determinism.buildtime_epoch_used", "Determinism.buildtime_epoch_zero",
     "Determinism.buildtime_option_wins", "Determinism.buildtime_clock_when_unset", "Determinism.buildtime_notInt_refused",
 ]
@@ -58,14 +58,6 @@ PARTIAL = {
     "Determinism.lower_order_invariant_partial":
         "findRootClasses (classIndex roots) and the zope `implements` list sort by x.lower(): excluded are names that differ in "
         "case only; lower_tie_counterexample; ties keep dict / list order",
-    "Determinism.addTemplateDir_listing_invariant_partial":
-        "statement: the template lookup built from a --template-dir does not depend on the order in which the directory is "
-        "listed. Full statement is false of the code (Template.fromdir walks path.iterdir() unsorted, TemplateLookup is "
-        "case-insensitive: first spelling names the output file, last added provides the bytes). Proved when the lowered names "
-        "of the directory are distinct. Excluded: names differing in case only - addTemplateDir_listing_counterexample; the "
-        "oracle builds such a project (corpus-template-case-collision) and reports the OPEN finding "
-        "listing-order:template-dir-case-collision; addTemplateDirSorted_listing_invariant is the full statement for the "
-        "proposed repair fixes/C18-template-dir-listing-sorted.diff",
     "Determinism.rerun_idempotent":
         "hypothesis wfRun: the name that becomes the root symlink (<root>.html) is not written after the link is made, and "
         "either not before it, or the link target (index.html) is rewritten afterwards and differs from it. Since /repo "
@@ -338,7 +330,7 @@ def corpus_projects() -> List[Dict[str, Any]]:
         proj("classIndex", {"classIndex.py": '"""A module named like a summary page."""\nclass K:\n    """k"""\n'}, ["classIndex.py"], [], "123456789012"),
         proj("index", {"index.py": '"""A module called index."""\ndef f():\n    """f"""\n'}, ["index.py"], [], "2147483647"),
         proj("hidden-root", {"hid.py": '"""A hidden root."""\nx = 1\n'}, ["hid.py"], ["--privacy=HIDDEN:hid"], str(EPOCH)),
-        # open finding listing-order:template-dir-case-collision: a --template-dir with files whose names differ in case only
+        # finding listing-order:template-dir-case-collision (fixed ea400d3): a --template-dir with files whose names differ in case only
         dict(proj("template-case-collision", {"m.py": "x = 1\n"}, ["m.py"], ["--template-dir=@TPL@"], "1"),
              templates={"Extra.css": "/* UPPER */\n", "extra.css": "/* lower */\n", "My.css": "A\n", "my.css": "b\n", "plain.txt": "t\n"},
              modes=["sorted", "reverse"]),
@@ -710,7 +702,8 @@ def sidecar_streams(st: Streams, p: Dict[str, Any], src: Path, r: Dict[str, Any]
     else:
         impl = "other " + repr(links)
     st.add("writeSummaryPages.symlink~rootSymlink",
-           "determinism symlink %s %s" % (",".join(enc(f) for f in side["page_files"]) or "-", ntoks(enum)), impl, where)
+           "determinism symlink %d %s %s" % (1 if side["any_root_visible"] else 0,
+                                             ",".join(enc(f) for f in side["page_files"]) or "-", ntoks(enum)), impl, where)
     # traversal: one request per root that is a package with a name no other root shares
     listing: Dict[str, List[str]] = {}
     for d, names in side.get("listings", []):
@@ -1131,7 +1124,8 @@ def presentation_stream(ctx: Ctx, st: Streams, scratch: Path) -> None:
 
 def template_lookup_stream(ctx: Ctx, st: Streams, scratch: Path) -> None:
     """real TemplateLookup(base).add_templatedir(custom) with the two directories listed in a chosen order
-    (pathlib.Path.iterdir answers that order for these two directories only), against `addTemplateDir`"""
+    (pathlib.Path.iterdir answers that order for these two directories only), against `addTemplateDirSorted`
+    (the request carries the listing order; the model, like Template.fromdir since ea400d3, sorts it)"""
     import pathlib
     from pydoctor.templatewriter import TemplateLookup, HtmlTemplate
     rng = ctx.rng
@@ -1178,7 +1172,7 @@ def template_lookup_stream(ctx: Ctx, st: Streams, scratch: Path) -> None:
                 impl = type(e).__name__
             lowered = [x.lower() for x in cnames]
             ctx.count("template-dir:" + ("case-collision" if len(set(lowered)) < len(lowered) else "distinct"))
-            st.add("TemplateLookup.add_templatedir~addTemplateDir", "determinism templates %s | %s" % (" ".join(toks[0]), " ".join(toks[1])),
+            st.add("TemplateLookup.add_templatedir~addTemplateDirSorted", "determinism templates %s | %s" % (" ".join(toks[0]), " ".join(toks[1])),
                    impl, {"base": orders[str(bdir)], "custom": orders[str(cdir)]})
             shutil.rmtree(bdir, ignore_errors=True)
             shutil.rmtree(cdir, ignore_errors=True)
